@@ -329,6 +329,10 @@ def combine_concl(d1, d2, m):
     if conns != d1['conns'] + [[i + n1 for i in row] for row in d2['conns']]:
         bad.append(('offsets', 'merged connectivity is not conns1 ++ (conns2 + n1)', {}))
     bad += [('valid', b, {}) for b in validity(np.asarray(m.coords).tolist(), conns, what='merged mesh:')]
+    if np.asarray(m.simplexNodesOrdinals).tolist() != list(range(n1 + n2)):
+        bad.append(('simplex', 'simplexNodesOrdinals of the merged mesh is not 0..n1+n2-1 (every node of a linear mesh is a vertex)', {}))
+    if np.asarray(m.coords).tolist() != [list(x) for x in d1['coords']] + [list(x) for x in d2['coords']]:
+        bad.append(('coords', 'merged coordinates are not coords1 ++ coords2', {}))
 
     def lost(kind, s1, s2, got, sh):
         if s1 is None and s2 is None:
@@ -467,6 +471,8 @@ class _Var:
     def __getitem__(self, key):
         import numpy as np
         d = self.data[key] if not isinstance(self.data, list) else self.data[key]
+        if hasattr(d, 'copy') and not isinstance(d, list):
+            d = d.copy()            # netCDF4 hands out a fresh array on every read (never a view of the file data)
         if getattr(self, 'masked', False):
             return np.ma.masked_array(d)
         return d
@@ -546,7 +552,11 @@ def exodus_case(r):
         for i, s in enumerate(sidesets):
             var['elem_ss%d' % (i + 1)] = _Var(np.array([e for e, _ in s], dtype=np.int32) + 1)
             var['side_ss%d' % (i + 1)] = _Var(np.array([p for _, p in s], dtype=np.int32) + 1)
-    desc = dict(six=six, coords=coords, blocks=blocks, bnames=bnames, nodesets=nodesets, nsnames=nsnames, sidesets=sidesets, ssnames=ssnames)
+    emap = None
+    if r.random() < 0.5:
+        emap = r.sample(range(1, 10 * len(rows) + 1), len(rows))       # global element numbers (1-based, arbitrary)
+        var['elem_num_map'] = _Var(np.array(emap, dtype=np.int32))
+    desc = dict(six=six, coords=coords, blocks=blocks, bnames=bnames, nodesets=nodesets, nsnames=nsnames, sidesets=sidesets, ssnames=ssnames, emap=emap)
     return dims, var, desc
 
 
@@ -589,6 +599,30 @@ def part_readers(ctx, model_ok):
             flat = [row for b in desc['blocks'] for row in b]
             vcols = np.asarray(mesh.parentElement.vertexNodes).tolist()
             bad = validity(np.asarray(mesh.coords).tolist(), [[row[c] for c in vcols] for row in conns], what='exodus mesh:') if not desc['six'] else []
+            if np.asarray(mesh.coords).tolist() != desc['coords']:
+                bad.append('coordinates differ from the file')
+            # names: given names are kept, unnamed entities get block_<i+1> / nodeset_<i+1> / sideset_<i+1> (1-based, as in the file)
+            for kind, got, names, auto in (('block', mesh.blocks, desc['bnames'], 'block_'), ('node set', mesh.nodeSets, desc['nsnames'], 'nodeset_'),
+                                           ('side set', mesh.sideSets, desc['ssnames'], 'sideset_')):
+                want = [nm if nm else auto + str(i + 1) for i, nm in enumerate(names)]
+                if list(got.keys()) != want:
+                    bad.append('%s names %r differ from the file (expected %r)' % (kind, list(got.keys()), want))
+            if desc['six']:
+                n_ = len(desc['coords'])
+                vrows = [[row[c] for c in vcols] for row in conns]
+                if any(not 0 <= i < n_ for row in conns for i in row):
+                    bad.append('tri6 connectivity out of range')
+                elif sorted({i for row in conns for i in row}) != list(range(n_)):
+                    bad.append('tri6 connectivity does not use every node')
+                else:
+                    cc = np.asarray(mesh.coords).tolist()
+                    if any(not area2(*[[frac(x) for x in cc[i]] for i in vr]) > 0 for vr in vrows):
+                        bad.append('tri6 element not counter-clockwise')
+            bm = getattr(mesh, 'block_maps', None)
+            emap = desc['emap'] if desc['emap'] is not None else list(range(1, len(flat) + 1))
+            if bm is None or [x for v in bm.values() for x in np.asarray(v).tolist()] != emap or list(bm.keys()) != list(mesh.blocks.keys()) \
+                    or [len(np.asarray(v)) for v in bm.values()] != [len(b) for b in desc['blocks']]:
+                bad.append('block_maps are not the per-block slices of the element number map')
             if desc['six']:
                 faces = np.asarray(mesh.parentElement.faceNodes).tolist()
                 for t, row in enumerate(conns):
@@ -763,6 +797,229 @@ def part_elevate(ctx, model_ok=False):
             ctx.count('model_vs_impl_comparisons')
 
 
+# ------------------------------------------------------------------------------------------ 6. purity / aliasing / histories
+def snapshot(m):
+    """everything observable of a Mesh tuple, as plain Python data"""
+    import numpy as np
+
+    def dd(d, two=False):
+        if d is None:
+            return None
+        return [(k, np.asarray(v).reshape(-1, 2).tolist() if two else np.asarray(v).ravel().tolist()) for k, v in d.items()]
+    bm = getattr(m, 'block_maps', None)
+    return dict(coords=np.asarray(m.coords).tolist(), conns=np.asarray(m.conns).tolist(), simplex=np.asarray(m.simplexNodesOrdinals).tolist(),
+                degree=int(m.parentElement.degree), nref=int(np.asarray(m.parentElement.coordinates).shape[0]),
+                blocks=dd(m.blocks), nodeSets=dd(m.nodeSets), sideSets=dd(m.sideSets, True),
+                block_maps=None if bm is None else [(k, np.asarray(v).tolist()) for k, v in bm.items()])
+
+
+def build_mesh_np(d, kind):
+    """like build_mesh; kind 'numpy': sets and blocks hold plain numpy arrays (as the Exodus reader returns them), which CAN be mutated in place"""
+    import numpy as np
+    if kind != 'numpy':
+        return build_mesh(d)
+    import jax.numpy as jnp
+    from optimism import Mesh
+    blocks = {k: np.array(v, dtype=np.int64) for k, v in d['blocks'].items()}
+    ns = None if d['nodeSets'] is None else {k: np.array(v, dtype=np.int64) for k, v in d['nodeSets'].items()}
+    ss = None if d['sideSets'] is None else {k: jnp.array(v, dtype=jnp.int64).reshape(-1, 2) for k, v in d['sideSets'].items()}
+    return Mesh.construct_mesh_from_basic_data(jnp.array(d['coords']), jnp.array(d['conns'], dtype=jnp.int64), blocks, ns, ss)
+
+
+def purity_case(c):
+    """one purity / history scenario, fully described by the plain-data case c; -> list of violated clauses"""
+    import numpy as np
+    import jax.numpy as jnp
+    from optimism import Mesh
+    bad = []
+    op = c['op']
+    if op == 'combine_history':
+        d1, d2, d3 = c['mesh1'], c['mesh2'], c['mesh3']
+        m1, m2, m3 = (build_mesh_np(d, c.get('arrays', 'jax')) for d in (d1, d2, d3))
+        s1, s2, s3 = snapshot(m1), snapshot(m2), snapshot(m3)
+        z = lambda d: np.zeros((len(d['coords']), 2))
+        mA, _ = Mesh.combine_mesh((m1, z(d1)), (m2, z(d2)))
+        sA = snapshot(mA)
+        mB, _ = Mesh.combine_mesh((m1, z(d1)), (m3, z(d3)))
+        mC, _ = Mesh.combine_mesh((m2, z(d2)), (m1, z(d1)))          # m1 now as SECOND argument, m2 re-used as first
+        if snapshot(m1) != s1:
+            bad.append('combine_mesh changed its first input mesh (observable data differ after the calls)')
+        if snapshot(m2) != s2 or snapshot(m3) != s3:
+            bad.append('combine_mesh changed its second input mesh')
+        if snapshot(mA) != sA:
+            bad.append('an earlier merged mesh changed when one of its inputs was merged again')
+        mA2, _ = Mesh.combine_mesh((build_mesh_np(d1, c.get('arrays', 'jax')), z(d1)), (build_mesh_np(d2, c.get('arrays', 'jax')), z(d2)))
+        if snapshot(mA2) != sA:
+            bad.append('merging equal inputs twice gives different results (the first result depends on history)')
+        for tag, (da, db, mm) in dict(second=(d1, d3, mB), swapped=(d2, d1, mC)).items():
+            for clause, text, extra in combine_concl(da, db, mm):
+                bad.append('%s merge re-using an input: %s' % (tag, text))
+    elif op == 'elevate':
+        d = c['mesh']
+        base = build_mesh_np(d, c.get('arrays', 'jax'))
+        if c.get('block_maps', True):
+            base = base._replace(block_maps={k: np.asarray(v) + 100 for k, v in base.blocks.items()})
+        s0 = snapshot(base)
+        kw = dict(useBubbleElement=c['bubble'], copyNodeSets=c['copyNodeSets'], createNodeSetsFromSideSets=c['createNS'])
+        mA = Mesh.create_higher_order_mesh_from_simplex_mesh(base, c['order'], **kw)
+        sA = snapshot(mA)
+        mB = Mesh.create_higher_order_mesh_from_simplex_mesh(base, c['order'], **kw)
+        if snapshot(base) != s0:
+            bad.append('order elevation changed its input mesh')
+        if snapshot(mB) != sA or snapshot(mA) != sA:
+            bad.append('elevating the same mesh twice gives different results / changes the earlier result')
+        if sA['blocks'] != s0['blocks'] or sA['sideSets'] != s0['sideSets'] or sA['block_maps'] != s0['block_maps']:
+            bad.append('order elevation changed blocks, side sets or block maps (element ids and sides are unchanged by elevation)')
+        if sA['degree'] != c['order']:
+            bad.append('parent element of the elevated mesh has degree %d, requested %d' % (sA['degree'], c['order']))
+        n = len(sA['coords'])
+        faces = np.asarray(mA.parentElement.faceNodes)
+        conns = np.asarray(mA.conns)
+        if c['createNS'] and d['sideSets'] is not None:
+            want = [(k, sorted({int(i) for e, sd in v for i in conns[e, faces[sd]]})) for k, v in d['sideSets'].items()]
+            if sA['nodeSets'] != want:
+                bad.append('node sets created from side sets are not exactly the nodes on those sides: %r vs %r' % (sA['nodeSets'], want))
+        elif c['copyNodeSets']:
+            if sA['nodeSets'] != s0['nodeSets']:
+                bad.append('copyNodeSets: node sets differ from the input mesh')
+        elif sA['nodeSets'] is not None:
+            bad.append('node sets present although neither copyNodeSets nor createNodeSetsFromSideSets was requested')
+        for k, v in (sA['nodeSets'] or []):
+            if any(not 0 <= i < n for i in v):
+                bad.append('node set %r of the elevated mesh refers to a node outside 0..%d' % (k, n - 1))
+        if sA['simplex'] != list(range(len(d['coords']))) or sA['coords'][:len(d['coords'])] != s0['coords']:
+            bad.append('vertex nodes of the elevated mesh are not the original nodes, in order')
+    elif op == 'mesh_with':
+        d = c['mesh']
+        base = build_mesh_np(d, c.get('arrays', 'jax'))
+        base = base._replace(block_maps={k: np.asarray(v) + 100 for k, v in base.blocks.items()})     # as a mesh read from Exodus carries them
+        s0 = snapshot(base)
+        newc = jnp.array(d['coords']) + 0.25
+        nb = {'only': jnp.arange(len(d['conns']))}
+        nn = {'n0': jnp.array([0])}
+        a, b, e = Mesh.mesh_with_coords(base, newc), Mesh.mesh_with_blocks(base, nb), Mesh.mesh_with_nodesets(base, nn)
+        if snapshot(base) != s0:
+            bad.append('mesh_with_* changed its input mesh')
+        sa, sb, se = snapshot(a), snapshot(b), snapshot(e)
+        for nm, sn, fld, val in (('mesh_with_coords', sa, 'coords', np.asarray(newc).tolist()), ('mesh_with_blocks', sb, 'blocks', [('only', list(range(len(d['conns']))))]),
+                                 ('mesh_with_nodesets', se, 'nodeSets', [('n0', [0])])):
+            if sn[fld] != val:
+                bad.append('%s did not install the new %s' % (nm, fld))
+            if any(sn[k] != s0[k] for k in s0 if k != fld):
+                bad.append('%s changed a field other than %s' % (nm, fld))
+    elif op == 'edges_numpy':
+        conns = np.array(c['conns'], dtype=np.int64)
+        keep = conns.copy()
+        ec1, ed1 = Mesh.create_edges(conns)
+        ec1, ed1 = np.asarray(ec1).copy(), np.asarray(ed1).copy()
+        ec2, ed2 = Mesh.create_edges(conns)
+        if not np.array_equal(conns, keep):
+            bad.append('create_edges changed its input connectivity array')
+        if not (np.array_equal(ec1, ec2) and np.array_equal(ed1, ed2)):
+            bad.append('create_edges returns different tables when called twice on the same input')
+    elif op == 'json_reread':
+        from optimism import ReadMesh
+        workdir = os.path.join(C.RUN, 'c13p_%d' % os.getpid())
+        os.makedirs(workdir, exist_ok=True)
+        try:
+            pa, pb = os.path.join(workdir, 'a.json'), os.path.join(workdir, 'b.json')
+            for path, content in ((pa, c['A']), (pb, c['B'])):
+                with open(path, 'w') as fh:
+                    json.dump(content, fh)
+            a1 = snapshot(ReadMesh.read_json_mesh(pa))
+            b1 = snapshot(ReadMesh.read_json_mesh(pb))
+            a2 = snapshot(ReadMesh.read_json_mesh(pa))
+            with open(pa, 'w') as fh:
+                json.dump(c['B'], fh)
+            a3 = snapshot(ReadMesh.read_json_mesh(pa))           # same path, new content: must not be served from a cache
+            if a1 != a2:
+                bad.append('reading the same JSON file twice (with another file read in between) gives different meshes')
+            if a3 != b1:
+                bad.append('re-reading a path after its content changed returns stale data (reader caches by file name)')
+            if a1['conns'] != c['A']['connectivity'] or b1['conns'] != c['B']['connectivity']:
+                bad.append('connectivity differs from the file')
+        finally:
+            shutil.rmtree(workdir, ignore_errors=True)
+    elif op == 'exodus_reread':
+        import random
+        if not install_fake_netcdf():
+            return bad
+        from optimism import ReadExodusMesh
+        ra, rb = random.Random(c['seedA']), random.Random(c['seedB'])
+        (da, va, _), (db, vb, _) = exodus_case(ra), exodus_case(rb)
+        raw = {k: (np.array(v.data).copy() if not isinstance(v.data, list) else None) for k, v in va.items()}
+        _Dataset.store['pa'], _Dataset.store['pb'] = (da, va), (db, vb)
+        a1 = snapshot(ReadExodusMesh.read_exodus_mesh('pa'))
+        b1 = snapshot(ReadExodusMesh.read_exodus_mesh('pb'))
+        a2 = snapshot(ReadExodusMesh.read_exodus_mesh('pa'))
+        _Dataset.store['pa'] = (db, vb)
+        a3 = snapshot(ReadExodusMesh.read_exodus_mesh('pa'))
+        if a1 != a2:
+            bad.append('reading the same Exodus data twice (with another file in between) gives different meshes')
+        if a3 != b1:
+            bad.append('re-reading a name after its content changed returns stale data (reader caches by file name)')
+        for k, v in va.items():
+            if raw[k] is not None and not np.array_equal(np.array(v.data), raw[k]):
+                bad.append('the reader modified the file data it was given (variable %s)' % k)
+    elif op == 'structured_full':
+        m = Mesh.construct_structured_mesh(c['Nx'], c['Ny'], c['xExtent'], c['yExtent'], elementOrder=c['order'], useBubbleElement=c['bubble'])
+        sm = snapshot(m)
+        nV, nE = c['Nx'] * c['Ny'], 2 * (c['Nx'] - 1) * (c['Ny'] - 1)
+        if sm['simplex'] != list(range(nV)):
+            bad.append('simplexNodesOrdinals is not 0..Nx*Ny-1')
+        if sm['blocks'] != [('block_0', list(range(nE)))]:
+            bad.append('blocks of the structured mesh are not {block_0: all elements}')
+        if sm['degree'] != c['order'] or any(len(row) != sm['nref'] for row in sm['conns']):
+            bad.append('element degree / row width do not match the requested order')
+        vn = np.asarray(m.parentElement.vertexNodes).tolist()
+        bad += validity(sm['coords'][:nV], [[row[i] for i in vn] for row in sm['conns']], what='structured mesh (vertex columns):')
+        if sorted({i for row in sm['conns'] for i in row}) != list(range(len(sm['coords']))):
+            bad.append('connectivity does not use exactly the nodes 0..n-1')
+    else:
+        bad.append('unknown purity op %r' % op)
+    return bad
+
+
+def part_purity(ctx):
+    import numpy as np
+    r = ctx.rng('purity')
+    cases = []
+    for i in range(ctx.n(8, 50)):
+        pool = NAMES[:4]
+        cases.append(dict(part='purity', op='combine_history', arrays=['jax', 'numpy'][i % 2],
+                          mesh1=rand_mesh_with_sets(r, pool), mesh2=rand_mesh_with_sets(r, pool), mesh3=rand_mesh_with_sets(r, pool)))
+    for i in range(ctx.n(8, 40)):
+        d = rand_mesh_with_sets(r, NAMES[:5])
+        if d['sideSets'] is None or i % 2 == 0:
+            d['sideSets'] = {'s%d' % k: [[r.randrange(len(d['conns'])), r.randrange(3)] for _ in range(r.randrange(1, 4))] for k in range(r.randrange(1, 3))}
+        cases.append(dict(part='purity', op='elevate', arrays=['jax', 'numpy'][i % 2], mesh=d, order=r.choice([2, 3, 4]), bubble=(i % 3 == 0 and False),
+                          copyNodeSets=(i % 4 == 1), createNS=(i % 2 == 0)))
+        if cases[-1]['order'] in (2, 3) and i % 3 == 0:
+            cases[-1]['bubble'] = True
+    for i in range(ctx.n(3, 12)):
+        cases.append(dict(part='purity', op='mesh_with', arrays=['jax', 'numpy'][i % 2], mesh=rand_mesh_with_sets(r, NAMES[:5])))
+    for i in range(ctx.n(3, 12)):
+        pts, tris = delaunay_mesh(r, r.randrange(5, 12))
+        cases.append(dict(part='purity', op='edges_numpy', conns=tris))
+    for i in range(ctx.n(2, 8)):
+        def content():
+            pts, tris = delaunay_mesh(r, r.randrange(4, 10))
+            return dict(coordinates=pts.tolist(), connectivity=tris, nodeSets={'n': [0, 1]}, sideSets={'s': [[0, 1], [0, 2]]})
+        cases.append(dict(part='purity', op='json_reread', A=content(), B=content()))
+    for i in range(ctx.n(2, 8)):
+        cases.append(dict(part='purity', op='exodus_reread', seedA=r.randrange(1 << 30), seedB=r.randrange(1 << 30)))
+    for i in range(ctx.n(6, 30)):
+        order = [1, 2, 3, 4, 5, 2][i % 6]
+        cases.append(dict(part='purity', op='structured_full', Nx=r.randrange(2, 5), Ny=r.randrange(2, 5), xExtent=[0.0, r.uniform(0.5, 3)], yExtent=[-1.0, r.uniform(0, 2)],
+                          order=order, bubble=(order in (2, 3) and i % 2 == 1)))
+    for c in cases:
+        ctx.count('evaluations')
+        ctx.count('purity_histories')
+        for b in purity_case(c):
+            ctx.fail('conclusion', 'purity/history (%s): %s' % (c['op'], b), case=c, concrete=True)
+    ctx.count('distinct_nontrivial', len(cases))
+
+
 # ------------------------------------------------------------------------------------------ driver interface
 def correspondence(ctx, model_ok):
     import optimism  # noqa: F401
@@ -771,7 +1028,8 @@ def correspondence(ctx, model_ok):
     part_combine(ctx, model_ok)
     part_readers(ctx, model_ok)
     part_elevate(ctx, model_ok)
-    ctx.cov['parts'] = ['structured', 'edges', 'combine', 'readers(exodus in-memory, json files)', 'elevation (tests only)']
+    part_purity(ctx)
+    ctx.cov['parts'] = ['structured', 'edges', 'combine', 'readers(exodus in-memory, json files)', 'elevation (tests only)', 'purity/aliasing/histories (combine, elevate incl. node-set flags, mesh_with_*, create_edges, reader re-reads)']
 
 
 def search(ctx, reasons):
@@ -827,11 +1085,15 @@ def replay(ctx, path):
         ec, ed = Mesh.create_edges(np.array(case['conns'], dtype=np.int64))
         rows = [[int(a), int(b)] + [int(x) for x in e] for (a, b), e in zip(np.asarray(ec).tolist(), np.asarray(ed).tolist())]
         bad = edges_concl(case['conns'], rows)
-    elif part == 'combine':
+    elif part == 'combine' and 'mesh3' not in case:
         ctx.failures = []
         run_combine(ctx, [(case['mesh1'], case['mesh2'])], False, 'r')
         known = [f for f in C.load_known_findings() if f['property'] == ID and f['status'] == 'open']
         bad = [fl['what'] for fl in ctx.failures if not any(matches_finding(fl, f) for f in known)]
+    elif part == 'purity':
+        bad = purity_case(case)
+    elif part == 'combine' and 'mesh3' in case:
+        bad = purity_case(dict(op='combine_history', mesh1=case['mesh1'], mesh2=case['mesh2'], mesh3=case['mesh3']))
     else:
         print('case kind %r is replayed by re-running the check' % part)
         return 1
